@@ -88,6 +88,10 @@ where
     encoding::Default: encoding::Encoding<S::Input>,
 {
     let mut log = RunLog::default();
+    vcore::report::watch_describe(|| {
+        let st = s.st.borrow();
+        format!("sequence {} against the scripted reply bytes {} (end of stream at {:?})", std::any::type_name::<S>(), vcore::report::hex_short(&st.incoming), st.eof_at)
+    });
     let r = guarded(|| {
         let mut l = RunLog::default();
         let mut tr = PacketTransport { source: s.clone() };
